@@ -242,6 +242,7 @@ def run_model(case, ctx):
                 cfg = mlgen.gen_model_cfg(rng, D, classes=("UNet", "ResNet", "ResNet", "DilResNet", "ConvBlock"), equivariant=eq)
                 cfg["norm"] = True if cfg["cls"] != "ConvBlock" or eq else cfg["norm"]
                 if cfg["norm"]:
+                    cfg["mid"] = None  # (explicit mid types were drawn for the un-normalised configuration)
                     # normalisation accepts k<=1: regenerate signatures within that
                     for s in ("in_sig", "out_sig"):
                         cfg[s] = [[t, c] for t, c in cfg[s] if t[0] <= 1] or [[[0, 0], 2]]
